@@ -13,6 +13,7 @@ _ENGINES = {
     "C15": ("sims.initsim", "InitSim"),
     "C17": ("sims.scalesim", "ScaleSim"),
     "C18": ("sims.datasim", "DataSim"),
+    "C19": ("sims.reprosim", "ReproSim"),
     "C20": ("sims.trainsim", "TrainSim"),
 }
 
